@@ -701,6 +701,14 @@ func (e *Exec) applyContract(st *State, call *ast.CallExpr, fi *FuncInfo, ct *Co
 			e.obligeNamed(st, fmt.Sprintf("%s/call#%d.pre.%d", e.fn.Key, site, k), "call", r.Tag, g,
 				fmt.Sprintf("precondition of %s: %s", ct.Key, r.Src), pos)
 		}
+		if ct.Decreases != nil && fi.Key == e.fn.Key && e.depth == 0 {
+			m1 := e.specTerm(pre, *ct.Decreases, envPre)
+			m0 := e.specTerm(e.entry, *ct.Decreases, e.entryEnv(e.entry))
+			e.obligeNamed(st, fmt.Sprintf("%s/call#%d.dec", e.fn.Key, site), "dec", "", And(Le(IntLit(0), m1), Lt(m1, m0)),
+				"recursive call decreases the measure: "+ct.Decreases.Src, pos)
+		} else if fi.Key == e.fn.Key && e.depth == 0 {
+			e.note("termination", e.fn.Key+": recursive call without a decreases clause (partial correctness only)")
+		}
 		locs := e.modLocs(ct.Modifies, envPre)
 		e.havocLocs(st, locs, pos)
 	}()
